@@ -3,6 +3,7 @@ import Spec
 import Proofs.ParseTop
 import Proofs.Eval
 import Proofs.Recogniser
+import Proofs.RecogniserComplete
 namespace Dltype.C05
 open Dltype Dltype.Spec Dltype.Proofs
 
@@ -102,6 +103,23 @@ theorem recogniser_is_sound (s : List Char) (t : Tree) (h : recogniseExpr s = so
 theorem parser_accepts_what_recogniser_accepts (s : List Char) (t : Tree) (h : recogniseExpr s = some t) :
     parseDim s = .ok { identifier := s, post := t.post } :=
   recognised_is_parsed s t h
+
+/-- … and complete: the string of every well-formed tree is accepted with exactly that tree, so the oracle
+    *decides* the documented grammar (`Proofs/RecogniserComplete.lean`: lexer completeness on separated token
+    lists, fuel monotonicity, the level / chain / atom induction with an explicit fuel bound) -/
+theorem recogniser_decides_grammar (s : List Char) (t : Tree) :
+    recogniseExpr s = some t ↔ (t.str = s ∧ t.WF = true) :=
+  recogniseExpr_iff s t
+
+/-- the documented grammar is unambiguous: a string is written by at most one well-formed tree … -/
+theorem grammar_is_unambiguous (t₁ t₂ : Tree) (h₁ : t₁.WF = true) (h₂ : t₂.WF = true) (h : t₁.str = t₂.str) :
+    t₁ = t₂ :=
+  grammar_unambiguous t₁ t₂ h₁ h₂ h
+
+/-- … so "the arithmetic value of a dimension string" is well defined: any two readings of a string agree -/
+theorem arithmetic_value_well_defined (s : List Char) (t₁ t₂ : Tree) (h₁ : t₁.WF = true) (h₂ : t₂.WF = true)
+    (e₁ : t₁.str = s) (e₂ : t₂.str = s) (σ : Name → Option Int) : t₁.eval σ = t₂.eval σ := by
+  rw [grammar_unambiguous t₁ t₂ h₁ h₂ (e₁.trans e₂.symm)]
 
 /-- non-vacuity: a concrete tree of the grammar, its string, its program and its value -/
 theorem example_tree :
